@@ -177,13 +177,13 @@ class NpProxy(object):
     @_ov
     def ravel(self, a, **kw):
         if is_sym(a):
-            return wrap(np.ravel(asobj(a)))
+            return wrap(np.ravel(asobj(a), **kw))
         return np.ravel(a, **kw)
 
     @_ov
     def reshape(self, a, shape, **kw):
         if is_sym(a):
-            return wrap(np.reshape(asobj(a), shape))
+            return wrap(np.reshape(asobj(a), shape, **kw))
         return np.reshape(a, shape, **kw)
 
     @_ov
@@ -462,13 +462,28 @@ class NpProxy(object):
 
 
 def _percentile_contract(a, q, axis, tag):
-    """np.percentile(a, q, axis=0): precondition a real; per column c an uninterpreted function of that column only,
-    with min <= p25 <= p50 <= p75 <= max."""
+    """np.percentile(a, q, axis): precondition a real.  axis=0: per column c an uninterpreted function of that column
+    only, with min <= p25 <= p50 <= p75 <= max.  axis=None: one uninterpreted function of ALL entries (the flattened
+    array) -- so a reduction that lost its axis makes every column depend on every other one."""
     a = asobj(a)
     if builtins.any(isinstance(lift(v), C) for v in a.ravel()):
         # numpy raises TypeError("a must be an array of real numbers") for complex input
         raise TypeError('a must be an array of real numbers')
-    assert axis == 0 and a.ndim == 2
+    if axis is None:
+        allv = [lift(v).t for v in a.ravel()]
+        outs = []
+        prev = None
+        for qq in q:
+            f = uf('%s%d_flat%d' % (tag, int(qq), len(allv)), len(allv))
+            p = f(*allv)
+            CTX.facts.append(z3.And(z3.Or(*[p >= t for t in allv]), z3.Or(*[p <= t for t in allv])))
+            if prev is not None:
+                CTX.facts.append(prev <= p)
+            prev = p
+            outs.append(R(p))
+        return outs
+    if axis != 0 or a.ndim != 2:
+        raise NeedsConcrete('percentile contract covers axis=0 on 2-d tables and axis=None')
     K, N = a.shape
     outs = []
     prev = [None] * N
@@ -494,6 +509,9 @@ PINV_ARGS = []     # (args, kwargs) of every pinv call: the contract only covers
 
 def pinv_contract(m, real_impl, args=(), kwargs=None):
     PINV_ARGS.append((tuple(args), dict(kwargs or {})))
+    if isinstance(m, np.ndarray) and m.dtype == object and not builtins.any(isinstance(v, SYM) for v in m.ravel()):
+        # an object array that only holds concrete numbers (allocated symbolically, filled concretely)
+        m = np.asarray(m.tolist(), dtype=complex if builtins.any(isinstance(v, complex) for v in m.ravel()) else float)
     if not is_sym(m):
         return real_impl(m, *args, **(kwargs or {}))
     return _pinv_contract(m, real_impl)
